@@ -1246,3 +1246,175 @@ def _(mod):
             return n
         done += bool(ok and edit_first(f, pred2, ed2))
     return done == 2
+
+
+# ------------------------------------------------------------------ round-6 rules (additive slips)
+DSBF = "tlexport/dpkt_dsb.py"
+
+
+@variant("c01-early-return-before-keystream", "break", ["C01"], DEC, "GI", "new-condition", "stream cipher: new early return before the keystream is advanced")
+def _(mod):
+    f = get_func(mod, "Decryptor.decrypt_generic_stream_cipher")
+    def pred(n):
+        return isinstance(n, ast.Assign) and "cipher.update" in ast.unparse(n.value)
+    def ed(n):
+        return [ast.If(test=parse_expr("len(record.binary) <= self.mac_length"), body=[parse_stmt("return b''")], orelse=[]), n]
+    return edit_first(f, pred, ed)
+
+
+@variant("c16-flip-resets-largest", "break", ["C16", "C02"], QS, "WSI", "new-writes", "key-phase flip resets the 1-RTT largest packet number")
+def _(mod):
+    f = get_func(mod, "QuicSession.check_key_epoch")
+    def pred(n):
+        return isinstance(n, ast.AugAssign) and ast.unparse(n.target) == "self.epoch_server"
+    def ed(n):
+        return [n, parse_stmt("self.packet_number_server[PACKET_TYPE_MAP[QuicPacketType.RTT_1]] = 0")]
+    return edit_first(f, pred, ed)
+
+
+@variant("c02-hoisted-ciphersuite", "break", ["C02"], QS, "STALE", "hoisted-read", "negotiated suite read once before the coalesced-packet loop")
+def _(mod):
+    f = get_func(mod, "QuicSession.handle_packet")
+    loop = next((n for n in ast.walk(f) if isinstance(n, ast.While)), None)
+    if loop is None:
+        return False
+    done = False
+    for n in ast.walk(loop):
+        if isinstance(n, ast.keyword) and n.arg == "ciphersuite" and ast.unparse(n.value) == "self.tls_session.ciphersuite":
+            n.value = ast.Name("ciphersuite", ast.Load())
+            done = True
+    if not done:
+        return False
+    for lst in (f.body,):
+        i = lst.index(loop) if loop in lst else None
+        if i is None:
+            return False
+        lst.insert(i, parse_stmt("ciphersuite = self.tls_session.ciphersuite"))
+    return True
+
+
+@variant("c03-dispatch-to-last-session", "break", ["C03", "C04", "C02"], MAIN, "D7b", "unmatched-dispatch", "unmatched short-header datagrams handed to the most recent QUIC session")
+def _(mod):
+    f = get_func(mod, "handle_quic_packet")
+    last = f.body[-1]
+    if not isinstance(last, ast.If):
+        return False
+    last.orelse = [ast.If(test=parse_expr("quic_sessions"), body=[parse_stmt("quic_sessions[-1].handle_packet(packet, dcid, quic_version)")], orelse=[])]
+    return True
+
+
+@variant("c09-no-session-without-keys", "break", ["C09", "C04"], MAIN, "A6c", "session-creation-extra-condition", "no TLS session is created while the key list is empty")
+def _(mod):
+    f = get_func(mod, "handle_packet")
+    def pred(n):
+        return isinstance(n, ast.Expr) and "sessions.append(Session(" in ast.unparse(n)
+    def ed(n):
+        return ast.If(test=parse_expr("len(keylog) != 0"), body=[n], orelse=[])
+    return edit_first(f, pred, ed)
+
+
+@variant("c06-writer-linktype-from-input", "break", ["C06"], MAIN, "D3", "writer", "output announces the input's link type")
+def _(mod):
+    f = get_func(mod, "run")
+    def pred(n):
+        return isinstance(n, ast.Call) and ast.unparse(n.func) == "dpkt.pcapng.Writer"
+    def ed(n):
+        n.keywords.append(ast.keyword(arg="linktype", value=parse_expr("pcap_reader.datalink()")))
+        return n
+    return edit_first(f, pred, ed)
+
+
+@variant("c18-abspath-in-output", "break", ["C18"], MAIN, "D6b", "nondeterminism", "absolute input path computed in run()")
+def _(mod):
+    f = get_func(mod, "run")
+    def pred(n):
+        return isinstance(n, ast.Assign) and "dpkt.pcapng.Writer" in ast.unparse(n.value)
+    def ed(n):
+        return [parse_stmt("note = os.path.abspath(args.infile)"), n, parse_stmt("file.write(note.encode())")]
+    ok = edit_first(f, pred, ed)
+    mod.body.insert(0, parse_stmt("import os"))
+    return ok
+
+
+@variant("c18-preserve-abspath-logged", "preserve", ["C18"], MAIN, desc="absolute input path only written to the log")
+def _(mod):
+    f = get_func(mod, "run")
+    def pred(n):
+        return isinstance(n, ast.Assign) and "dpkt.pcapng.Writer" in ast.unparse(n.value)
+    def ed(n):
+        return [parse_stmt("logging.info('reading %s', os.path.abspath(args.infile))"), n]
+    ok = edit_first(f, pred, ed)
+    mod.body.insert(0, parse_stmt("import os"))
+    return ok
+
+
+@variant("c12-reader-trims-frames", "break", ["C12", "C07"], DSBF, "T9p", "yield-shape", "pcapng reader trims the captured bytes")
+def _(mod):
+    f = get_func(mod, "Reader.__iter__")
+    def pred(n):
+        return isinstance(n, ast.Yield) and "epb.pkt_data" in ast.unparse(n)
+    def ed(n):
+        n.value.elts[1] = parse_expr("epb.pkt_data[:-4]")
+        return n
+    return edit_first(f, pred, ed)
+
+
+@variant("c08-raise-after-packet-loop", "break", ["C08"], SES, "A1r", "escape-outside-loop", "diagnostic after the packet loop indexes the reassembly buffer")
+def _(mod):
+    f = get_func(mod, "Session.get_tls_records")
+    f.body.append(ast.If(test=parse_expr("len(self.server_packet_buffer) > 0"), body=[parse_stmt("missing = self.server_packet_buffer[1].seq")], orelse=[]))
+    return True
+
+
+@variant("c16-extra-window-arm", "break", ["C16"], QS, "E1", "arms", "additional first arm in the packet-number window decision")
+def _(mod):
+    f = get_func(mod, "QuicSession.get_full_packet_number")
+    def pred(n):
+        return isinstance(n, ast.If) and "candidate_pkn" in ast.unparse(n.test) and "pkn_hwindow" in ast.unparse(n.test)
+    def ed(n):
+        return ast.If(test=parse_expr("largest_pkn < pkn_hwindow"), body=[parse_stmt("out_pkn = truncated_pkn")], orelse=[n])
+    return edit_first(f, pred, ed)
+
+
+@variant("c18-shared-level-templates", "break", ["C18", "C02"], QTP, "D6a", "shared-template-elements", "CRYPTO buffers initialised by shallow copies of a module-level template")
+def _(mod):
+    mod.body.insert(_first_def(mod), parse_stmt("LEVEL_FRAMES = {QuicPacketType.INITIAL: [], QuicPacketType.RTT_O: [], QuicPacketType.RTT_1: [], QuicPacketType.HANDSHAKE: []}"))
+    f = get_func(mod, "QuicTlsSession.__init__")
+    n = 0
+    for st in ast.walk(f):
+        if isinstance(st, (ast.Assign, ast.AnnAssign)) and "frame_buffer" in ast.unparse(st.targets[0] if isinstance(st, ast.Assign) else st.target):
+            st.value = parse_expr("dict(LEVEL_FRAMES)")
+            n += 1
+    return n == 2
+
+
+def _first_def(mod):
+    for i, st in enumerate(mod.body):
+        if isinstance(st, (ast.ClassDef, ast.FunctionDef)):
+            return i
+    return len(mod.body)
+
+
+@variant("c16-preserve-extract-helper", "preserve", ["C16", "C02", "C15"], QS, desc="epoch bookkeeping of check_key_epoch moved into a new helper method")
+def _(mod):
+    cls = next(n for n in mod.body if isinstance(n, ast.ClassDef) and n.name == "QuicSession")
+    f = get_func(mod, "QuicSession.check_key_epoch")
+    top = f.body[0]
+    if not isinstance(top, ast.If):
+        return False
+    helper = ast.parse("def _advance_epoch(self, key_phase_bit, isserver):\n    pass").body[0]
+    helper.body = [top]
+    f.body[0] = parse_stmt("self._advance_epoch(key_phase_bit, isserver)")
+    cls.body.append(helper)
+    return True
+
+
+@variant("c01-preserve-guard-respelled", "preserve", ["C01", "C03"], SES, desc="fail-closed gate re-spelled: nested ifs instead of `and`")
+def _(mod):
+    f = get_func(mod, "Session.handle_tls_record")
+    def pred(n):
+        return isinstance(n, ast.If) and isinstance(n.test, ast.BoolOp) and isinstance(n.test.op, ast.And) and len(n.test.values) == 2 and not n.orelse
+    def ed(n):
+        a, b = n.test.values
+        return ast.If(test=a, body=[ast.If(test=b, body=n.body, orelse=[])], orelse=[])
+    return edit_first(f, pred, ed)
